@@ -99,7 +99,11 @@ def replay_power(data):
     cr = rng.normal(size=nr) + 1j * rng.normal(size=nr)
     from chmpy.shape._sht import expand_coeffs_to_full
     full = expand_coeffs_to_full(lmax, cr)
-    if not np.allclose(sht.power_spectrum(cr), sht.power_spectrum(full), rtol=1e-10):
+    pr = np.asarray(sht.power_spectrum(cr), float)
+    wantr = np.array([(abs(full[l * l:(l + 1) ** 2]) ** 2).sum() / (2 * l + 1) for l in range(lmax + 1)])
+    if pr.shape != wantr.shape:
+        bad.append("power spectrum of %d packed real-layout coefficients (l_max=%d) has %d values, expected %d" % (nr, lmax, pr.size, lmax + 1))
+    elif not np.allclose(pr, wantr, rtol=1e-10):
         bad.append("power spectrum of the real layout differs from that of the expanded coefficients")
     return bool(bad), bad
 
@@ -195,12 +199,12 @@ def part_N(ctx, LN):
 def part_power(ctx, LN):
     ms = load_shimmed("chmpy.shape.sht")
     from chmpy.shape._sht import expand_coeffs_to_full
-    for lmax in (1, 2, LN):
+    for lmax in (1, 2, LN, 7):      # 7: the first degree whose packed real layout has a square number of coefficients (36 = 6^2)
         sht = ms.SHT(lmax)
         n = (lmax + 1) ** 2
         c = coeffs(n)
         ex = Explorer()
-        paths = ex.run(lambda: sht.power_spectrum(c))
+        paths = ex.run(lambda: sht.power_spectrum(c)) if lmax != 7 else []     # l_max = 7: packed real layout only (below)
         ctx.add_paths(ex)
         bad = False
         for p in paths:
@@ -208,6 +212,10 @@ def part_power(ctx, LN):
                 ctx.harness_error("power_spectrum raised symbolically: %r" % (p.exc,))
                 return
             ps = p.value
+            if len(ps) != lmax + 1:
+                ctx.record("power[l_max=%d] (complex layout): one value per degree" % lmax, "counterexample", nontrivial=True)
+                bad = True
+                continue
             with ex.post(p.pc):
                 for l in range(lmax + 1):
                     want = sum(c[k].re * c[k].re + c[k].im * c[k].im for k in range(l * l, (l + 1) ** 2))
@@ -224,6 +232,10 @@ def part_power(ctx, LN):
                 ctx.harness_error("power_spectrum (real layout) raised symbolically: %r" % (p.exc,))
                 return
             ps = p.value
+            if len(ps) != lmax + 1:
+                ctx.record("power[l_max=%d] (real layout, %d coefficients): one value per degree" % (lmax, nr), "counterexample", nontrivial=True)
+                bad = True
+                continue
             idx = {}
             k = 0
             for mm in range(lmax + 1):
